@@ -83,6 +83,21 @@ theorem holds_by_sentence (L : Layout) (hv : L.valid) (a b : Int) (ha : inRange 
   obtain ⟨⟨t1, _⟩, ⟨e1, _⟩, ⟨d1, d2, d3, d4, _⟩, _⟩ := holds L hv a b ha hbr hb
   exact ⟨t1, e1, d1, d2, d3, d4⟩
 
+/-- the same for a primitive-integer divisor `k`, which stands for the (unbounded) bits `k·2^f`: `%`, `rem_euclid_int` (four forms) and `div_euclid_int`
+  (three forms) return the overflow treatment of the numbers the sentences describe -/
+theorem holds_by_sentence_int (L : Layout) (hv : L.valid) (a k : Int) (ha : inRange L a) (hk : inRange L k) (hk0 : k ≠ 0)
+    (rt re q : Int) (h1 : IsTruncRem a (k * 2 ^ L.f) rt) (h2 : a = q * (k * 2 ^ L.f) + re) (h3 : 0 ≤ re) (h4 : re < (k * 2 ^ L.f).natAbs) :
+    L.remIntOp a k = .ok rt false ∧
+    L.overflowingRemEuclidInt a k = .ok (L.ovf re) false ∧ L.checkedRemEuclidInt a k = .ok (L.chk re) false ∧
+    L.wrappingRemEuclidInt a k = .ok (L.wrap re) false ∧
+    L.overflowingDivEuclidInt a k = .ok (L.ovf (q * 2 ^ L.f)) false ∧ L.checkedDivEuclidInt a k = .ok (L.chk (q * 2 ^ L.f)) false ∧
+    L.wrappingDivEuclidInt a k = .ok (L.wrap (q * 2 ^ L.f)) false := by
+  have hB : k * 2 ^ L.f ≠ 0 := Int.mul_ne_zero hk0 (Int.ne_of_gt (two_pow_pos L.f))
+  obtain ⟨eq, er⟩ := euclid_pair_unique a (k * 2 ^ L.f) q re hB h2 h3 h4
+  rw [trunc_rem_unique a _ rt hB h1, eq, er]
+  obtain ⟨_, _, _, ⟨t1, _⟩, ⟨r1, r2, r3, _⟩, ⟨d1, d2, d3, _⟩⟩ := holds L hv a k ha hk hk0
+  exact ⟨t1, r1, r2, r3, d1, d2, d3⟩
+
 /-- non-vacuity: −7 by 2 and by −2: truncated remainder −1, Euclidean remainder 1, Euclidean quotients −4 and 4 -/
 example : Int.tmod (-7) 2 = -1 ∧ (-7 : Int) % 2 = 1 ∧ (-7 : Int) / 2 = -4 ∧ Int.tmod (-7) (-2) = -1 ∧ (-7 : Int) % (-2) = 1 ∧ (-7 : Int) / (-2) = 4 := by
   decide
